@@ -17,6 +17,13 @@ import (
 
 var network = &networks.Sepolia
 
+func gp(g *core.GasPrice) *core.GasPrice {
+	if g == nil {
+		return &core.GasPrice{}
+	}
+	return g
+}
+
 func hx16(f *felt.Felt) string {
 	if f == nil {
 		return "0"
@@ -91,6 +98,14 @@ func txSpec(tx core.Transaction) string {
 		if t.Version.Is(0) && t.Nonce != nil {
 			return fmt.Sprintf("l1h|%s|%s|%s|%s|%s", qbit(t.Version), hx16(t.ContractAddress), hx16(t.EntryPointSelector), hx16(t.Nonce), fl(t.CallData, ","))
 		}
+		if t.Version.Is(0) {
+			return "unv|0" // no nonce: juno returns the declared hash
+		}
+	case *core.DeployTransaction:
+		return "unv|0" // never recomputed; Signature() is empty
+	}
+	if t, ok := tx.(*core.DeclareTransaction); ok && t.Version.Is(0) && t.TransactionHash != nil {
+		return "unv|1" // declare v0: the declared hash is returned
 	}
 	return ""
 }
@@ -202,8 +217,8 @@ func blockLine(b *core.Block, d *core.StateDiff) string {
 		fmt.Sprintf("num=%x", h.Number), "root=" + hx16(h.GlobalStateRoot), "seq=" + hx16(h.SequencerAddress),
 		fmt.Sprintf("ts=%x", h.Timestamp), fmt.Sprintf("txc=%x", h.TransactionCount), fmt.Sprintf("evc=%x", h.EventCount),
 		"blob=" + blob,
-		fmt.Sprintf("g=%s,%s,%s,%s,%s,%s", hx16(h.L1GasPriceETH), hx16(h.L1GasPriceSTRK), hx16(h.L1DataGasPrice.PriceInWei),
-			hx16(h.L1DataGasPrice.PriceInFri), hx16(h.L2GasPrice.PriceInWei), hx16(h.L2GasPrice.PriceInFri)),
+		fmt.Sprintf("g=%s,%s,%s,%s,%s,%s", hx16(h.L1GasPriceETH), hx16(h.L1GasPriceSTRK), hx16(gp(h.L1DataGasPrice).PriceInWei),
+			hx16(gp(h.L1DataGasPrice).PriceInFri), hx16(gp(h.L2GasPrice).PriceInWei), hx16(gp(h.L2GasPrice).PriceInFri)),
 		fmt.Sprintf("vs=%x", new(big.Int).SetBytes([]byte(h.ProtocolVersion))),
 		fmt.Sprintf("ver=%d.%d.%d", ver.Major(), ver.Minor(), ver.Patch()),
 		"parent=" + hx16(h.ParentHash)}
@@ -254,6 +269,9 @@ func askTxHash(or *hx.Oracle, tx core.Transaction) (felt.Felt, bool) {
 	if spec == "" {
 		return felt.Felt{}, false
 	}
+	if strings.HasPrefix(spec, "unv|") {
+		return *tx.Hash(), true // hash not recomputed by juno: the declared one stands (model: Unverified)
+	}
 	rep := or.AskUntil("tx "+network.L2ChainIDFelt().Text(16)+" "+spec, "end")
 	return evalLine(rep[0], "hash"), true
 }
@@ -267,6 +285,8 @@ func setTxHash(tx core.Transaction, h *felt.Felt) {
 	case *core.DeployAccountTransaction:
 		t.TransactionHash = h
 	case *core.L1HandlerTransaction:
+		t.TransactionHash = h
+	case *core.DeployTransaction:
 		t.TransactionHash = h
 	}
 }
